@@ -140,6 +140,7 @@ CONFIGS = {
     "noschema": lambda: _mk(schema=False),
     "keep-unknown": lambda: _mk(add=[plugins.FieldsPlugin(remove_unknown=False)]),
     "multifield": lambda: qparser.MultifieldParser(["t", "k"], make_schema()),
+    "multifield-g": lambda: qparser.MultifieldParser(["t", "g"], make_schema()),
     "multifield-boost": lambda: qparser.MultifieldParser(["t", "k", "n"], make_schema(),
                                                          fieldboosts={"t": 2.0, "k": 0.5}),
     "multifield-or": lambda: qparser.MultifieldParser(["t", "d", "b"], make_schema(), group=syntax.OrGroup),
@@ -617,7 +618,27 @@ def _cmp_atom(rng):
     return ("field", fld, ("atom", rng.choice(CMP_RELS) + txt))
 
 
-RANGE_FIELDS = ["d", "d", "d", "n", "sn", "f", "t", "k"]
+RANGE_FIELDS = ["d", "d", "d", "n", "sn", "f", "t", "k", "g", "w", "ws"]
+# n-gram fields of make_schema(): field -> (what is cut into grams, minsize, maxsize).  These field
+# types are self-parsing but leave ranges to the parser (FieldType.parse_range returns None): the
+# range is a TermRange over the field's grams, its ends lower-cased as single texts
+GRAM_FIELDS = {"g": ("value", 2, 3), "w": ("words", 2, 3), "ws": ("starts", 2, 3)}
+
+
+def field_terms(doc, field):
+    """The terms one of make_docs() has in a word or n-gram field, computed without whoosh."""
+    val = (doc[field] or u"").lower()
+    if field not in GRAM_FIELDS:
+        return val.split()
+    how, lo, hi = GRAM_FIELDS[field]
+    out = []
+    for piece in ([val] if how == "value" else val.split()):
+        for size in range(lo, hi + 1):
+            if size > len(piece):
+                continue
+            for a in ((0,) if how == "starts" else range(0, len(piece) - size + 1)):
+                out.append(piece[a:a + size])
+    return out
 
 
 def _range_end(rng, fld):
@@ -633,6 +654,16 @@ def _range_end(rng, fld):
         lo, hi, step = CMP_FIELDS[fld]
         v = lo + step * rng.randint(0, int((hi - lo) / step))
         return ("%g" % v) if step != 1 else ("%d" % v)
+    if fld in GRAM_FIELDS:
+        # a gram of a word (most of them indexed), sometimes a single letter (shorter than the
+        # field's minimum gram size: analysing it yields no token, it is still the bound).  Not
+        # longer than the maximum size: of such a text the field's analyzer keeps the first gram
+        w = rng.choice(WORDS)
+        if rng.random() < 0.12:
+            return w[0]
+        size = rng.choice((2, 3))
+        a = rng.randint(0, len(w) - size)
+        return w[a:a + size]
     # some ends contain the letters "to": only a TO that stands on its own separates the ends
     return rng.choice(WORDS + ["tomato", "photo", "motto"])
 
@@ -869,7 +900,7 @@ def leaf_matches(doc, text, field):
             a = None if a is None else float(a)
             b = None if b is None else float(b)
         else:
-            xs = (doc[field] or u"").split()
+            xs = field_terms(doc, field)
         return any((a is None or (x > a if sx else x >= a)) and (b is None or (x < b if ex else x <= b)) for x in xs)
     c = parse_cmp(text)
     if c is not None and field in CMP_FIELDS:
